@@ -65,6 +65,9 @@ func observeLoop(prop string, c *Case, cov *Cov) []*Violation {
 	sched := c.Sched.FitTo(len(b))
 	clk := &core.Clock{}
 	sr := iosim.NewSimReader(b, sched, clk)
+	if c.Bufio > 0 {
+		sr.WrapBufio(c.Bufio)
+	}
 	w := iosim.NewSimWriter(clk)
 	var vs []*Violation
 	seen := map[string]bool{}
@@ -416,8 +419,23 @@ func runLoopProp(prop string, r *core.Rng, run, seed uint64, tier string, cov *C
 	var vs []*Violation
 	seen := map[string]bool{}
 	scheds := loopSchedules(r, s, nsched, prop == "C11")
-	for _, sc := range scheds {
+	for si, sc := range scheds {
 		c := &Case{Prop: prop, Run: run, Seed: seed, Mode: "loop", Doc: doc, Sched: sc, NameArgs: nameArgs}
+		if prop != "C11" && (si == 0 || si == 2) {
+			// one-shot delivery and the first seeded schedule once more, the
+			// scanner reading through a bufio.Reader as large as (or larger
+			// than) its own buffer
+			c2 := *c
+			c2.Bufio = []int{16384, 32768, 65536}[int(run)%3]
+			cov.Probe("behind-bufio.Reader")
+			cov.Note(ih, sc, len(s.Dumps) > 0, "bufio")
+			for _, v := range observeLoop(prop, &c2, cov) {
+				if !seen[v.Clause+v.Known] {
+					seen[v.Clause+v.Known] = true
+					vs = append(vs, v)
+				}
+			}
+		}
 		cov.Note(ih, sc, len(s.Dumps) > 0, "")
 		for _, v := range observeLoop(prop, c, cov) {
 			if !seen[v.Clause+v.Known] {
